@@ -7,6 +7,7 @@
   behavioural correspondence `idx.encode` / `idx.decode`.
 -/
 import Desync.Proofs.IndexCodecProofs
+import Desync.Proofs.IndexStoreProofs
 
 namespace Desync.C04
 open Desync
@@ -441,5 +442,187 @@ def sampleIndex : Index :=
 example : WF .sha512_256 sampleIndex := by
   refine ⟨by decide, ?_⟩
   simp [sampleIndex, ChunksOK]
+
+/-! ### index stores (`Model/IndexStore.lean`): the stores refine a map name → index
+
+  `LocalIndexStore` (open flags and error handling regenerated from localindex.go), the HTTP index
+  client composed with `HTTPIndexHandler` over a local index store, and the object-replacing
+  S3 / SFTP index stores. -/
+
+open IStore in
+theorem roundTrip_WF (alg : DigestAlg) : RoundTrip alg (WF alg) := fun i h => decode_encode alg i h
+
+open IStore in
+theorem prefixRejected_WF (alg : DigestAlg) : PrefixRejected alg (WF alg) :=
+  fun i k h hk => prefix_rejected alg i h k hk
+
+/-- regenerated: `LocalIndexStore.StoreIndex` opens with `O_TRUNC` (`os.Create`), returns the error of the
+    open, writes into the file it opened and returns the error of `WriteTo` -/
+theorem gen_istore_local :
+    IStore.localCfg = ⟨true, true⟩ ∧ Gen.istoreLocalOpenErrReturned = true ∧
+    Gen.istoreLocalWritesOpenedFile = true ∧ Gen.site_istore_local_store_found = true := by decide
+
+/-- regenerated: `LocalIndexStore.GetIndex` opens the file of that name, decodes it and returns the decoded
+    index together with the decode error -/
+theorem gen_istore_local_get :
+    Gen.istoreLocalReaderOpen = "os.Open(s.Path+name)" ∧
+    Gen.istoreLocalGetShape = ["open:GetIndexReader(name)", "open-error-returned", "decode:IndexFromReader(opened)",
+      "return:decoded,decode-error"] ∧
+    Gen.istoreLocalGetReturnsDecodeErr = true ∧ Gen.site_istore_local_get_found = true := by decide
+
+/-- regenerated: `RemoteHTTPIndex.StoreIndex` builds the request body inside the per-attempt callback (a fresh
+    pipe carrying `idx.WriteTo` per attempt); `GetIndex` decodes what `GetObject` returned -/
+theorem gen_istore_http :
+    Gen.istoreHttpBodyPerAttempt = true ∧ Gen.istoreHttpBodyIsEncoding = true ∧
+    Gen.istoreHttpStoreObjectArgs = "name,getReader" ∧
+    Gen.istoreHttpGetShape = ["GetObject", "NewReader", "GetIndexReader", "IndexFromReader"] ∧
+    Gen.site_istore_http_store_found = true ∧ Gen.site_istore_http_get_found = true := by decide
+
+/-- regenerated: `HTTPIndexHandler.put` stores the index it decoded from the body under the handler's name;
+    `get` sends the re-encoding of the index the wrapped store returned -/
+theorem gen_istore_handler :
+    Gen.istoreHandlerPutShape = ["validateWritable", "assert:IndexWriteStore", "IndexFromReader(r.Body)",
+      "StoreIndex(indexName,decoded)"] ∧
+    Gen.istoreHandlerGetShape = ["GetIndex(indexName)", "buffer:=WriteTo(fetched)", "send(buffer)"] ∧
+    Gen.site_istore_handler_put_found = true ∧ Gen.site_istore_handler_get_found = true := by decide
+
+/-- regenerated: the S3 index store pipes the encoding into one `PutObject`; the SFTP index store pipes it into
+    `StoreObject` = temporary file, copy, close, rename over the name -/
+theorem gen_istore_atomic :
+    Gen.istoreS3StoreShape = ["pipe", "go:defer-close-writer", "go:WriteTo(writer)", "PutObject(reader)"] ∧
+    Gen.istoreSftpStoreShape = ["pipe", "go:defer-close-writer", "go:WriteTo(writer)", "StoreObject(reader)"] ∧
+    Gen.istoreSftpStoreObjectShape = ["Create(tmp)", "Mkdir", "Copy", "Remove(tmp)", "Close", "PosixRename(tmp,name)"] ∧
+    Gen.site_istore_s3_store_found = true ∧ Gen.site_istore_sftp_store_found = true ∧
+    Gen.site_istore_sftp_storeobject_found = true := by decide
+
+theorem localCfg_truncates : IStore.localCfg.truncates = true := by rw [gen_istore_local.1]
+
+/-- **The local store refines a map**: after ANY history of successful `StoreIndex` calls (oldest first) on
+    well-formed indexes, `GetIndex` of any name returns exactly the index stored LAST under that name, and
+    "not found" if none was; names do not interfere. -/
+theorem store_refines_map (alg : DigestAlg) (h : List (IStore.Name × Index))
+    (hn : ∀ p ∈ h, IStore.plainName p.1 = true) (hwf : ∀ p ∈ h, WF alg p.2) (m : IStore.Name) :
+    IStore.localGet alg (IStore.run IStore.localCfg [] (IStore.opsOf h)) m =
+      match IStore.lastStored h m with
+      | some i => .ok i
+      | none => .notFound :=
+  IStore.success_history_get alg (WF alg) (roundTrip_WF alg) IStore.localCfg localCfg_truncates h hn hwf m
+
+/-- **… also with failing stores in the history**: a store that fails at the open changes nothing, one that
+    fails after `k` bytes leaves a name that reads back as an error (or, all bytes written, as that index);
+    `GetIndex` answers as the abstract map of the history says (`IStore.GetSpec`). -/
+theorem store_history_refines (alg : DigestAlg) (ops : List IStore.Op) (hwf : ∀ o ∈ ops, WF alg o.i)
+    (m : IStore.Name) :
+    IStore.GetSpec alg (IStore.run IStore.localCfg [] ops) m (IStore.absRun (fun _ => none) ops m) :=
+  IStore.history_refines alg (WF alg) (roundTrip_WF alg) (prefixRejected_WF alg) IStore.localCfg
+    localCfg_truncates ops hwf m
+
+/-- **frame**: a `StoreIndex` — successful or not — touches no other name -/
+theorem store_frame (d : IStore.Dir) (n m : IStore.Name) (i : Index) (f : IStore.StoreFault) (h : m ≠ n) :
+    ((IStore.localStore IStore.localCfg d n i f).1).get m = d.get m :=
+  IStore.localStore_frame _ d n i f m h
+
+/-- **No tail**: whatever the name held before (a longer index, anything), after a successful `StoreIndex`
+    it holds exactly the encoding of the new index — with the open flags the code uses now. -/
+theorem overwrite_leaves_no_tail (d : IStore.Dir) (n : IStore.Name) (hn : IStore.plainName n = true)
+    (i : Index) :
+    IStore.localStore IStore.localCfg d n i .none = (d.set n (encodeIndex i), true) ∧
+    ((IStore.localStore IStore.localCfg d n i .none).1).get n = some (encodeIndex i) := by
+  have h := IStore.localStore_ok_get IStore.localCfg localCfg_truncates d n i hn
+  exact ⟨h, by rw [h]; exact IStore.Dir.get_set_same _ _ _⟩
+
+/-- the same open without `O_TRUNC` (the earlier seeded regression) does leave a tail -/
+theorem no_trunc_leaves_tail (old w : Bytes) (h : w.length < old.length) : IStore.writeOver false old w ≠ w :=
+  IStore.writeOver_notrunc_tail old w h
+
+/-- **A failed store never reads back wrong**: if `StoreIndex` fails after `k` bytes of the encoding, the
+    failure is reported, and a later `GetIndex` of that name returns an error (`k` short of the full length) or
+    the index itself (everything was written) — never a different index. -/
+theorem failed_store_never_reads_back_wrong (alg : DigestAlg) (d : IStore.Dir) (n : IStore.Name)
+    (hn : IStore.plainName n = true) (i : Index) (hi : WF alg i) (k : Nat) :
+    (IStore.localStore IStore.localCfg d n i (.writeFails k)).2 = false ∧
+    (k < (encodeIndex i).length →
+      ∃ e, IStore.localGet alg (IStore.localStore IStore.localCfg d n i (.writeFails k)).1 n = .decodeErr e) ∧
+    ((encodeIndex i).length ≤ k →
+      IStore.localGet alg (IStore.localStore IStore.localCfg d n i (.writeFails k)).1 n = .ok i) := by
+  have h := IStore.localStore_writeFails IStore.localCfg localCfg_truncates d n i k hn
+  have hp := IStore.decodeRes_prefix alg (WF alg) (roundTrip_WF alg) (prefixRejected_WF alg) i hi k
+  rw [h]
+  refine ⟨by rw [gen_istore_local.1]; rfl, ?_, ?_⟩
+  · intro hk
+    simpa [IStore.localGet, IStore.Dir.get_set_same] using hp.1 hk
+  · intro hk
+    simpa [IStore.localGet, IStore.Dir.get_set_same] using hp.2 hk
+
+/-- **Success is complete**: `StoreIndex` reports success only when the name holds the complete encoding
+    (whatever fault was injected). -/
+theorem store_success_is_complete (d : IStore.Dir) (n : IStore.Name) (i : Index) (f : IStore.StoreFault)
+    (h : (IStore.localStore IStore.localCfg d n i f).2 = true) :
+    ((IStore.localStore IStore.localCfg d n i f).1).get n = some (encodeIndex i) := by
+  obtain ⟨_, _, hd⟩ := IStore.localStore_success_complete IStore.localCfg gen_istore_local.1 d n i f h
+  rw [hd]; exact IStore.Dir.get_set_same _ _ _
+
+/-- the client and the server as the code is now -/
+def clientNow (retry : Nat) (auth : Bytes) : IStore.ClientCfg := IStore.clientCfg retry auth
+def serverNow (cfg : HandlerCfg) (alg : DigestAlg) : IStore.Srv := ⟨cfg, alg, IStore.localCfg⟩
+
+theorem clientNow_fresh (retry : Nat) (auth : Bytes) : (clientNow retry auth).freshBody = true :=
+  gen_istore_http.1
+
+/-- **every attempt carries the complete encoding** -/
+theorem http_attempt_body_complete (retry : Nat) (auth : Bytes) (n : IStore.Name) (i : Index) (k : Nat) :
+    (IStore.putRequest (clientNow retry auth) n i k).body = encodeIndex i := by
+  simp [IStore.putRequest, IStore.attemptBody, clientNow_fresh]
+
+/-- **HTTP round trip**: client → `HTTPIndexHandler` → local index store and back.  A `StoreIndex` whose first
+    `pf.length` attempts fail transiently (503 in front of the handler, broken connection, response lost after the
+    handler ran, the handler's store failing at the open or after `k` bytes; fewer than the retry budget) and
+    whose next attempt gets through reports success after exactly `pf.length + 1` attempts, leaves the complete
+    encoding under that name on the server and every other name alone; a `GetIndex` afterwards — again through
+    transient failures — returns exactly that index and changes nothing. -/
+theorem http_index_roundtrip (alg : DigestAlg) (retry : Nat) (auth : Bytes) (cfg : HandlerCfg)
+    (hauth : cfg.auth = [] ∨ auth = cfg.auth) (hw : cfg.writable = true) (hsw : cfg.storeIsWritable = true)
+    (d : IStore.Dir) (n : IStore.Name) (hn : IStore.plainName n = true) (i : Index) (hi : WF alg i)
+    (pf pr gf gr : List IStore.Fate)
+    (hpf : ∀ f ∈ pf, f.failsPut = true) (hpl : pf = [] ∨ pf.length < retry)
+    (hgf : ∀ f ∈ gf, f.failsGet = true) (hgl : gf = [] ∨ gf.length < retry) :
+    let st := IStore.httpStore (clientNow retry auth) (serverNow cfg alg) d n i (pf ++ .run .none false :: pr)
+    st.2.1 = true ∧ st.2.2 = pf.length + 1 ∧
+    st.1.get n = some (encodeIndex i) ∧ (∀ m, m ≠ n → st.1.get m = d.get m) ∧
+    IStore.httpGet (clientNow retry auth) (serverNow cfg alg) st.1 n (gf ++ .run .none false :: gr)
+      = (st.1, .ok i, gf.length + 1) := by
+  intro st
+  have ho : IStore.Open (clientNow retry auth) (serverNow cfg alg) := ⟨hauth, hw, hsw⟩
+  obtain ⟨h1, h2, h3, h4⟩ := IStore.httpStore_masks alg (WF alg) (roundTrip_WF alg) (clientNow retry auth)
+    (clientNow_fresh retry auth) (serverNow cfg alg) rfl gen_istore_local.1 ho d n hn i hi pf pr hpf hpl
+  refine ⟨h1, h2, h3, h4, ?_⟩
+  exact IStore.httpGet_masks alg (WF alg) (roundTrip_WF alg) (clientNow retry auth) (serverNow cfg alg) rfl ho
+    st.1 n hn i hi h3 gf gr hgf hgl
+
+/-- **HTTP: success is complete**, whatever happens to the attempts (any script of fates): a `StoreIndex` the
+    client reports as successful has left the complete encoding under the name on the server. -/
+theorem http_store_success_is_complete (alg : DigestAlg) (retry : Nat) (auth : Bytes) (cfg : HandlerCfg)
+    (d : IStore.Dir) (n : IStore.Name) (hn : IStore.plainName n = true) (i : Index) (hi : WF alg i)
+    (fs : List IStore.Fate)
+    (h : (IStore.httpStore (clientNow retry auth) (serverNow cfg alg) d n i fs).2.1 = true) :
+    ((IStore.httpStore (clientNow retry auth) (serverNow cfg alg) d n i fs).1).get n = some (encodeIndex i) :=
+  IStore.httpStore_success alg (WF alg) (roundTrip_WF alg) (clientNow retry auth) (clientNow_fresh retry auth)
+    (serverNow cfg alg) rfl gen_istore_local.1 d n hn i hi fs h
+
+/-- **S3 / SFTP index stores**: the name changes to the complete encoding or not at all -/
+theorem atomic_store_all_or_nothing (d : IStore.Dir) (n : IStore.Name) (i : Index) (fails : Bool) :
+    ((IStore.atomicStore d n i fails).2 = false → (IStore.atomicStore d n i fails).1 = d) ∧
+    ((IStore.atomicStore d n i fails).2 = true →
+      (IStore.atomicStore d n i fails).1 = d.set n (encodeIndex i)) :=
+  IStore.atomicStore_spec d n i fails
+
+/-! non-vacuity: a longer index, then a shorter one under the same name, another name in between -/
+
+example : IStore.plainName [97, 46, 99, 97, 105, 98, 120] = true := by decide
+
+example : IStore.lastStored [([97], sampleIndex), ([98], sampleIndex), ([97], { sampleIndex with chunks := [] })] [97]
+    = some { sampleIndex with chunks := [] } := by decide
+
+example : (IStore.Fate.run (.writeFails 7) false).failsPut = true ∧ IStore.Fate.busy.failsGet = true := by decide
 
 end Desync.C04
